@@ -8,7 +8,7 @@ use bio::data_structures::interval_tree::{ArrayBackedIntervalTree, IntervalTree}
 use std::fmt::Debug;
 
 pub struct C07;
-const N_DIRECTED: u64 = 16;
+const N_DIRECTED: u64 = 17;
 
 trait Key: Ord + Clone + Copy + Debug + 'static {
     fn from_pair(a: u64, b: u64) -> (Self, Self);
@@ -409,6 +409,60 @@ impl C07 {
         ctx.count("trees_with_more_than_65536_entries", 1);
     }
 
+    /// an array-backed tree with more than 2^19 entries (20 implicit levels): queries at both ends and in the middle
+    fn huge_array_tree(&self, ctx: &mut Ctx, rng: &mut Rng) {
+        let n = (1usize << 19) + 3;
+        let shadow: Vec<(i64, i64, u64)> = (0..n).map(|i| (2 * i as i64, 2 * i as i64 + 1 + (i % 5) as i64, i as u64)).collect();
+        let desc = |w: String| Obj::new().s("case", "array tree with 2^19+3 entries").s("what", &w).done();
+        let built = guard(|| {
+            let mut arr: ArrayBackedIntervalTree<i64, u64> = shadow.iter().map(|&(s, e, d)| (s..e, d)).collect();
+            arr.index();
+            arr
+        });
+        let arr = match built {
+            Ok(a) => a,
+            Err(p) => {
+                ctx.violation(&format!("tree:big:insert-panic:{}", panic_site(&p)), desc(p));
+                return;
+            }
+        };
+        ctx.eval(n as u64);
+        let mut buf = vec![];
+        for qi in 0..40 {
+            let qs = match qi % 4 {
+                0 => rng.irange(-3, 40),                      // leftmost leaves: the deepest left descent
+                1 => 2 * n as i64 - rng.irange(0, 40),        // rightmost
+                2 => rng.irange(0, 2 * n as i64),
+                _ => (1i64 << (qi % 19 + 1)) - 2,             // around implicit-tree level boundaries
+            };
+            let qe = qs + 1 + rng.irange(0, 12);
+            let exp = exp_after(&shadow, qs, qe);
+            let got = guard(|| {
+                arr.find_into(qs..qe, &mut buf);
+                let mut b: Vec<(i64, i64, u64)> = buf.iter().map(|e| (e.interval().start, e.interval().end, *e.data())).collect();
+                b.sort();
+                let mut c: Vec<(i64, i64, u64)> = arr.find(qs..qe).iter().map(|e| (e.interval().start, e.interval().end, *e.data())).collect();
+                c.sort();
+                (b, c)
+            });
+            ctx.eval(2);
+            match got {
+                Err(p) => {
+                    ctx.violation(&format!("tree:big:find-panic:{}", panic_site(&p)), desc(format!("query {}..{}: {}", qs, qe, p)));
+                    return;
+                }
+                Ok((b, c)) => {
+                    if b != exp || c != exp {
+                        ctx.violation("array:find-wrong-multiset", desc(format!("query {}..{}: find_into {} hits, find {} hits, expected {}", qs, qe, b.len(), c.len(), exp.len())));
+                        return;
+                    }
+                }
+            }
+        }
+        ctx.shape(true, &("C07", "huge-array"));
+        ctx.count("array_trees_with_more_than_2^19_entries", 1);
+    }
+
     fn array_sizes(&self, ctx: &mut Ctx, rng: &mut Rng, n: usize) {
         // implicit-tree arithmetic for every size: build, index, query everything
         let ivs = gen_intervals(rng, 6, n);
@@ -575,6 +629,11 @@ impl Monitor for C07 {
                 14 | 15 => {
                     if !ctx.tiny() {
                         self.big_trees(ctx, rng, g == 14)
+                    }
+                }
+                16 => {
+                    if !ctx.tiny() {
+                        self.huge_array_tree(ctx, rng)
                     }
                 }
                 _ => self.annot_history(ctx, rng),
